@@ -81,7 +81,17 @@ def packages(draw: Any) -> dict:
     mods = [gt.module([pk, "pubmod"], pub), gt.module([pk, "_impl"], impl), gt.module([pk, "shapes"], [gt.klass("Shape", [gt.attr("sides", ["int"], None)])])]
     if other:
         mods.append(gt.module([pk, "othermod"], other))
-    return gt.package(pk, mods, {pk: inits})
+    # NumPy docstrings with an Examples section (the examples are a list inside the API model) on functions and on the methods
+    # of the private bases, analysed with the matching docstring style
+    docstyle = draw(st.sampled_from(["PLAINTEXT", "NUMPYDOC", "NUMPYDOC"]))
+    if docstyle == "NUMPYDOC":
+        n_doc = 0
+        for m in mods:
+            for _o, d in gt.walk_decls(m["decls"]):
+                if d["t"] == "func" and d["name"] != "__init__" and draw(st.booleans()):
+                    n_doc += 1
+                    d["doc"] = f"Summary {n_doc}.\n\nExamples\n--------\n>>> value_{n_doc} = 1\n>>> value_{n_doc}\n1\n\n>>> other_{n_doc}(\n...     2)\n"
+    return gt.package(pk, mods, {pk: inits}, docstyle=docstyle)
 
 
 STEPS = st.sampled_from(["gen:0", "gen:1", "again:0", "again:1", "serialise"])
@@ -109,7 +119,9 @@ class Runner:
         (self.base / "cwd").mkdir()
         os.chdir(self.base / "cwd")
         try:
-            self.api = get_api(self.base / "s" / pkg["name"])
+            from safeds_stubgen.docstring_parsing import DocstringStyle
+
+            self.api = get_api(self.base / "s" / pkg["name"], docstring_style=DocstringStyle[pkg.get("docstyle", "PLAINTEXT")])
         finally:
             os.chdir(cwd)
         self.initial = self.canonical()
@@ -217,8 +229,9 @@ def judge(case: dict) -> dict:
     if case.get("mode") == "cli_twice":
         files = gt.render_package(case["pkg"])
         gt.check_compiles(files)
-        r1 = run_cli(files, case.get("options"), src=case["pkg"]["name"], runs=1)
-        r2 = run_cli(files, case.get("options"), src=case["pkg"]["name"], runs=2)
+        opts = {**(case.get("options") or {}), "docstyle": case["pkg"].get("docstyle", "PLAINTEXT")}
+        r1 = run_cli(files, opts, src=case["pkg"]["name"], runs=1)
+        r2 = run_cli(files, opts, src=case["pkg"]["name"], runs=2)
         res["evals"] = 2
         for r in (r1, r2):
             if r["status"] != "ok":
